@@ -55,6 +55,15 @@ CLAIMED["C15"] = ("other",
     "Trusted: clang 14 front end; LLVM sroa/early-cse; irx; the Python engines; strict-typing assumption for the 'no store through struct type' rule; the non-reentrant libc deny-list.",
     "static analysis: global mutability classification (store/escape roots), who-may-write field rules, available-facts dataflow and cut sets on LLVM IR (custom checker)", "DESIGN.md §3 C15")
 
+CLAIMED["C18"] = ("other",
+    "Static taint analysis over the whole program (lib + src): sources are the header's path, filename, symlink_target, compress_method, unix_username and unix_group; "
+    "taint propagates through SSA values, struct fields, local buffers, libc copy functions, calls/returns over the resolved call graph (also through the progress-callback "
+    "data pointer); sinks are all stdio output calls. No header-derived value reaches a sink except through safe_printf/safe_fprintf, whose sanitising loop is evaluated "
+    "abstractly over all 256 byte values (every visited byte ends in 0x20-0x7e, the loop stops only at NUL, the string printed is the string sanitised); format strings "
+    "are printable literals. This found the method-field defect (fixed in repo commit 3344cc8). The suite only has a hostile file NAME; any other field printed raw is invisible to it.",
+    "Trusted: clang 14 front end; LLVM sroa/early-cse; irx; the Python taint engine and its libc copy models; field-sensitive (not object-sensitive) treatment of struct objects; printf-family semantics for literal formats.",
+    "static analysis: interprocedural source-to-sink taint analysis + byte-map loop evaluation over the 256-value domain on LLVM IR (custom checker)", "DESIGN.md §3 C18")
+
 NOT_APPLICABLE = {
     "C01": "decode exactness is an equality of runtime byte streams produced by table-driven Huffman state machines; no structural clause is a necessary condition the tests leave open (DESIGN §4)",
     "C02": "lock-step of the adaptive -lh1- tree with LZHUF is an equality over runtime symbol histories (tie-break order, rebuild threshold are value computations); not decidable by static analysis in reach (DESIGN §4)",
